@@ -10,8 +10,11 @@ PROPERTY = 'C15'
 
 
 def contracts(tier):
-    from . import mutsym
-    return mutsym.contracts(tier)
+    from . import mutsym, c11
+    # where requested declarations go (contract shared with C11)
+    iv = [c for c in c11.contracts(tier)
+          if c.name == 'introduce_variables[any list]']
+    return mutsym.contracts(tier) + iv
 
 
 def native_checks(tier):
@@ -24,7 +27,7 @@ def native_checks(tier):
                          ('core', 'smtlib', 'strings', 'bv', 'boolean',
                           'arithmetic', 'datatypes', 'fp')],
                     'harness/c15_native.py', [r],
-                    bound=f'10 inputs over all theories, every node x every '
+                    bound=f'12 inputs over all theories, every node x every '
                     f'mutator x <= 12 proposals, {r} rounds of partially '
                     'reduced forms'),
     ]
